@@ -985,9 +985,18 @@ tunnel_dns(int tun_fd, int dns_fd)
 
 		if (new_down_seqno != inpkt.seqno) {
 			/* New packet (and not dupe of recent; checked above) */
+			if (new_down_fragment != 0) {
+				/* Not its beginning: we lost track (an old
+				   duplicate may have reset our seqno).
+				   The rest of a packet must never be taken
+				   for a whole one; let server re-send and
+				   drop. */
+				send_ping_soon = 500;
+				break;
+			}
 			/* Forget any old packet, even if incomplete */
 			inpkt.seqno = new_down_seqno;
-			inpkt.fragment = new_down_fragment;   /* hopefully 0 */
+			inpkt.fragment = new_down_fragment;
 			inpkt.len = 0;
 		} else if (inpkt.fragment == 0 && new_down_fragment == 0 &&
 			   inpkt.len == 0) {
